@@ -2,6 +2,7 @@ CONSTANTS
   MaxTasks = 5
   MaxSend = 2
   WithOnConnect = FALSE
+  WithOnDisconnect = TRUE
   HandlerCloses = TRUE
   WithCloser = FALSE
   Dev_NoConnRecheck = FALSE
